@@ -268,6 +268,22 @@ var c16Inputs = map[string]string{
 	"illformed": "grammar calc;\nstart = UNDEF;\n",
 	"overlap":   "grammar calc;\nAA = /a+/\nBB = /a*/\nstart = AA BB;\n",
 	"conflict":  "grammar calc;\nstart = e;\ne = e \"+\" e | \"n\";\n",
+	// valid specifications without any terminal (the language {empty string}): the whole package is still due
+	"valid3": "grammar calc;\nstart = ;\n",
+	"valid4": "grammar calc;\nstart = head tail;\nhead = ;\ntail = | ;\n",
+}
+
+// c16Large builds specifications of more than 1 MiB: a valid head, padding made of comments and blank lines, and a tail
+// that is valid (a rule the head refers to) or broken. Whatever is at the end of a long file counts like the beginning.
+func c16Large(tail string, padBytes int) string {
+	var b strings.Builder
+	b.WriteString("grammar calc;\nNUM = /[0-9]+/\nstart = NUM rest;\n")
+	line := "// padding padding padding padding padding padding padding padding\n"
+	for b.Len() < padBytes {
+		b.WriteString(line)
+	}
+	b.WriteString(tail)
+	return b.String()
 }
 
 func c16Execute(c *ctx, bin string, r c16Run) {
@@ -533,7 +549,7 @@ func c16Execute(c *ctx, bin string, r c16Run) {
 	var ref map[string]string
 	refWhy := ""
 	expectSuccess := false
-	if r.text != "" && (r.fileKind == "valid" || r.fileKind == "valid2" || r.fileKind == "gen" || r.fileKind == "lexical" || r.fileKind == "syntax" || r.fileKind == "illformed" || r.fileKind == "overlap" || r.fileKind == "conflict") {
+	if r.text != "" && (r.fileKind == "valid" || r.fileKind == "valid2" || r.fileKind == "valid3" || r.fileKind == "valid4" || r.fileKind == "large" || r.fileKind == "gen" || r.fileKind == "lexical" || r.fileKind == "syntax" || r.fileKind == "illformed" || r.fileKind == "overlap" || r.fileKind == "conflict") {
 		n := r.pkgName
 		if !nameUsable {
 			n = ""
@@ -654,7 +670,7 @@ func runC16(c *ctx) {
 	add := func(r c16Run) { runs = append(runs, r) }
 	// (A) input classes x flags
 	flagSets := [][]string{nil, {"-debug"}, {"-verbose"}, {"-debug", "-verbose"}}
-	kinds := []string{"valid", "valid2", "lexical", "syntax", "illformed", "overlap", "conflict", "missing", "dir"}
+	kinds := []string{"valid", "valid2", "valid3", "valid4", "lexical", "syntax", "illformed", "overlap", "conflict", "missing", "dir"}
 	for _, k := range kinds {
 		for fi, fs := range flagSets {
 			add(c16Run{name: fmt.Sprintf("class/%s/f%d", k, fi), text: c16Inputs[k], fileKind: k, flags: fs, outKind: "ok", pkgPre: "none", useTrace: fi%2 == 0})
@@ -665,6 +681,15 @@ func runC16(c *ctx) {
 		add(c16Run{name: "info/" + strings.Join(fs, ""), text: c16Valid, fileKind: "valid", flags: fs, outKind: "ok", pkgPre: "none", useTrace: true})
 	}
 	add(c16Run{name: "nofile", fileKind: "nofile", outKind: "ok", pkgPre: "none", useTrace: true})
+	// (A') files larger than 1 MiB whose last lines decide (valid: a rule the head needs; broken in three ways)
+	for pi, pad := range []int{1<<20 - 200, 1<<20 + 10, 1<<20 + 70000, 3 << 20} {
+		for ti, tail := range []string{"rest = \"+\" NUM | ;\n", "rest = ( ;\n", "rest = # ;\n", "rest = UNDEFINED ;\n", ""} {
+			if c.quick() && (pi+ti)%2 == 1 {
+				continue
+			}
+			add(c16Run{name: fmt.Sprintf("large/%d/%d", pad, ti), text: c16Large(tail, pad), fileKind: "large", outKind: "ok", pkgPre: "none", useTrace: ti%2 == 0})
+		}
+	}
 	// (B) pre-states
 	for _, ok := range []string{"ok", "missing", "file", "symlink"} {
 		for _, pp := range []string{"none", "emptydir", "dirwithfiles", "file", "dangling", "symlinkdir"} {
